@@ -146,6 +146,32 @@ def path_atoms(A, f: Func, cn: Node, since: Optional[Node] = None) -> List[Tuple
         for a, p in facts.split_conj(t, b.polarity):
             a, p = strip_not(a, p)
             out.append((a, p, b.test))
+    return _drop_implied(out)
+
+
+def _canon(a: ast.AST, p: bool):
+    """(text, polarity) with `is not` / `!=` / `not in` folded into the polarity"""
+    a, p = strip_not(a, p)
+    if isinstance(a, ast.Compare) and len(a.ops) == 1:
+        FOLD = {ast.IsNot: ast.Is, ast.NotEq: ast.Eq, ast.NotIn: ast.In}
+        if type(a.ops[0]) in FOLD:
+            a = ast.Compare(left=a.left, ops=[FOLD[type(a.ops[0])]()], comparators=a.comparators)
+            p = not p
+    return src(a), p
+
+
+def _drop_implied(atoms):
+    """`not (A and B)` says nothing new once `not A` is known; `A or B` nothing once `A` is known"""
+    plain = {_canon(a, p) for a, p, _ in atoms if not isinstance(strip_not(a, p)[0], ast.BoolOp)}
+    out = []
+    for a, p, t in atoms:
+        a0, p0 = strip_not(a, p)
+        if isinstance(a0, ast.BoolOp):
+            if isinstance(a0.op, ast.And) and not p0 and any((lambda c: (c[0], not c[1]))(_canon(v, True)) in plain for v in a0.values):
+                continue
+            if isinstance(a0.op, ast.Or) and p0 and any(_canon(v, True) in plain for v in a0.values):
+                continue
+        out.append((a, p, t))
     return out
 
 
@@ -232,6 +258,47 @@ def enclosing_for_binding(f: Func, cn: Node, name: str) -> Optional[ast.For]:
 
 # ---------------------------------------------------------------------------------------------------------------------
 # values
+def binding_of(f: Func, node: ast.AST, cn: Node, name: str):
+    """the loop that binds `name` around `node`: (target-iter carrier, header cfg node, kind).
+    A comprehension / generator expression around the node (any(...), [.. for ..]) counts as a loop whose body is its element
+    and filters; the carrier is then a synthetic ast.For and the header is the statement's own cfg node."""
+    best = None
+    stmt = cn.ast if cn is not None else None
+    if stmt is not None:
+        roots = [stmt.iter, stmt.target] if isinstance(stmt, (ast.For, ast.AsyncFor)) else [stmt]
+        for r in roots:
+            for comp in ast.walk(r):
+                if isinstance(comp, (ast.ListComp, ast.GeneratorExp, ast.SetComp, ast.DictComp)):
+                    inside = [x for g in comp.generators for c in g.ifs for x in ast.walk(c)]
+                    for fld in ('elt', 'key', 'value'):
+                        if getattr(comp, fld, None) is not None:
+                            inside += list(ast.walk(getattr(comp, fld)))
+                    if any(x is node for x in inside):
+                        for g in comp.generators:
+                            if isinstance(g.target, ast.Name) and g.target.id == name:
+                                fo = ast.For(target=g.target, iter=g.iter, body=[], orelse=[])
+                                fo._comp = comp
+                                fo._gen = g
+                                best = (fo, cn, 'comp')
+    if best is not None:
+        return best
+    fo = enclosing_for_binding(f, cn, name)
+    if fo is not None:
+        return fo, cfg_of(f).node_of(fo), 'for'
+    return None, None, None
+
+
+def comp_skips(fo, node) -> List[ast.AST]:
+    """filters of a comprehension loop that stand between the generator and `node` (node is evaluated only when they hold)"""
+    g, comp = fo._gen, fo._comp
+    out = []
+    for c in g.ifs:
+        if any(x is node for x in ast.walk(c)):
+            break
+        out.append(c)
+    return out
+
+
 def resolve(f: Func, e: ast.AST, at: Optional[Node]) -> Tuple[ast.AST, Optional[Node], int]:
     """follow plain local names to their unique plain assignment: (expression, cfg node that evaluated it, hops)"""
     fl = flow_of(f)
@@ -1101,14 +1168,24 @@ def delegation_wbs(a: A, ctx):
         for e in rec:
             e.used = True
             c = e.node
-            fo = None
+            fo = hn = None
             if len(c.args) == 2 and isinstance(c.args[1], ast.Name):
-                fo = enclosing_for_binding(f, e.cn, c.args[1].id)
+                fo, hn, kind = binding_of(f, c, e.cn, c.args[1].id)
             if fo is None or not (isinstance(c.args[0], ast.Name) and c.args[0].id == tp):
-                o.refute(f, c, c, f"{what}: recursive call `{src(c)}` is not (searched task, child of the visited task)")
+                if len(c.args) == 2 and isinstance(c.args[0], ast.Name) and isinstance(c.args[1], ast.Name) and \
+                        (c.args[0].id != tp and c.args[1].id == tp):
+                    o.refute(f, c, c, f"{what}: recursive call `{src(c)}` has its arguments swapped; expected (searched task, child)")
+                elif fo is None and len(c.args) == 2 and isinstance(c.args[1], ast.Name) and c.args[1].id in (cur, tp):
+                    o.refute(f, c, c, f"{what}: recursive call `{src(c)}` does not descend into a child of the visited task")
+                else:
+                    o.undecided(f, c, c, f"{what}: recursive call `{src(c)}` is not recognised as (searched task, child of the visited task)")
                 ok = False
                 continue
-            it = a.xp(f, fo.iter, cfg_of(f).node_of(fo))
+            if kind == 'comp' and comp_skips(fo, c):
+                o.refute(f, c, c, f"{what}: some children are not searched (`{src(comp_skips(fo, c)[0])}`)")
+                ok = False
+                continue
+            it = a.xp(f, fo.iter, hn)
             src_it = list_source(norm_list(it)) if norm_list(it)[0] in ('ref', 'filter') and not (norm_list(it)[0] == 'filter' and norm_list(it)[3]) else None
             if not (src_it is not None and isinstance(src_it, ast.Attribute) and src_it.attr in ('children', '_Task__children')
                     and isinstance(src_it.value, ast.Name) and src_it.value.id == cur):
@@ -1802,6 +1879,9 @@ def append_last(a: A, ctx):
                 if isinstance(at, ast.Compare) and len(at.ops) == 1 and isinstance(at.ops[0], ast.In if pol else ast.NotIn) and \
                         a.is_self(f, at.left) and match(f"self.{PA}.{CH}", at.comparators[0]):
                     continue
+                if match(f"{P} is None", at) or match(f"{P} is not None", at) or match(f"{P}", at) or \
+                        match("self._Task__wbs is None", at) or match("self._Task__wbs is not None", at):
+                    continue        # the documented mode split (no parent given / member of a WBS): coverage is checked below
                 o.undecided(f, e.node, at, "leaving the old parent depends on a condition the rule does not know (a task re-appended to "
                                            "its own parent must still move to the end)")
                 bad = True
@@ -1817,6 +1897,29 @@ def append_last(a: A, ctx):
                     bad = True
         if bad:
             return
+        # every way of joining a parent (given / sentinel / None) comes after a removal (or its `old parent` guard)
+        def own_guard(e):
+            best = e.cn
+            for i in sorted(cfg.dominators().get(e.cn.id, set())):
+                t = cfg.nodes[i]
+                if t.kind == 'test' and t is not e.cn and cfg.dominates(t, best):
+                    tx = a.xp(f, t.ast, t)
+                    if all(f"self.{PA}" in src(x) for x, _ in facts.split_conj(tx, True)):
+                        best = t
+            return best
+        guards = {own_guard(e).id for e in rems}
+        seen, todo = {cfg.entry.id}, [cfg.entry]
+        while todo:
+            n = todo.pop()
+            for x in n.succ:
+                if x.id not in seen and x.id not in guards:
+                    seen.add(x.id)
+                    todo.append(x)
+        for j in sets + setnone + adds:
+            if j.cn.id in seen:
+                o.refute(f, j.node, j.node, f"on some path `{src(j.node)[:60]}` is reached without self having left the old parent's "
+                                            f"children list: the task ends up under two parents")
+                return
         o.site(f, rems[0].node, 'leaves old parent first: ' + src(rems[0].node))
         # append: only under `parent is not None` / `self not in parent.__children`
         for e in adds:
@@ -1922,6 +2025,46 @@ def _subtree_member(a: A, f, recv, cn):
     return '?'
 
 
+def _bookkeeping_ok(a: A, o, f, top, seen) -> bool:
+    """f (and the Task methods it calls, followed recursively) writes nothing but __wbs, and only on self / on tasks of
+    self's subtree"""
+    if f.qual in seen:
+        return True
+    seen.add(f.qual)
+    ok = True
+    for e in a.events(f):
+        recv = e.w.recv if e.kind == 'write' else (
+            e.node.func.value if e.kind == 'call' and isinstance(e.node, ast.Call) and isinstance(e.node.func, ast.Attribute)
+            else None)
+        where = _subtree_member(a, f, recv, e.cn) if recv is not None else 'no'
+        if e.kind == 'write':
+            if e.w.field != '_Task__wbs':
+                o.refute(f, e.node, e.node, f"{top} writes `{src(e.node)[:60]}`; WBS bookkeeping may only set __wbs")
+                ok = False
+            elif where == 'no':
+                o.refute(f, e.node, e.node, f"{top} writes __wbs of `{src(recv)}`, a task outside the subtree of the moved task")
+                ok = False
+            elif where == '?':
+                o.undecided(f, e.node, e.node, f"{top}: cannot tell whether `{src(recv)}` belongs to the moved subtree")
+                ok = False
+        elif e.kind == 'setter':
+            o.refute(f, e.stmt or e.node, e.node, f"{top} assigns a relation (`{src(e.node)}`)")
+            ok = False
+        elif e.kind == 'call':
+            c = e.node
+            tg = [t for t in e.ci.targets if t is not None]
+            if where == 'no':
+                o.refute(f, c, c, f"{top} reaches `{src(recv) if recv is not None else src(c)}`, a task outside the subtree of the moved task")
+                ok = False
+            elif where == '?' or not tg or any(t.cls != 'Task' for t in tg):
+                o.undecided(f, c, c, f"{top}: `{src(c)[:60]}` is not a walk down the moved subtree the rule can follow")
+                ok = False
+            else:
+                for t in tg:
+                    ok = _bookkeeping_ok(a, o, t, top, seen) and ok
+    return ok
+
+
 @part
 def subtree_follows(a: A, ctx):
     o = ctx.ob('subtree_follows', 'R9',
@@ -1963,37 +2106,7 @@ def subtree_follows(a: A, ctx):
                 o.site(None, None, 'no Task._detach in this tree: nothing walks a released subtree (C11 decides whether that is right)')
                 continue
             f = a.fn(q)
-            ok = True
-            for e in a.events(f):
-                recv = e.w.recv if e.kind == 'write' else (
-                    e.node.func.value if e.kind == 'call' and isinstance(e.node, ast.Call) and isinstance(e.node.func, ast.Attribute)
-                    else None)
-                where = _subtree_member(a, f, recv, e.cn) if recv is not None else 'no'
-                if e.kind == 'write':
-                    if e.w.field != '_Task__wbs':
-                        o.refute(f, e.node, e.node, f"{f.name} writes `{src(e.node)[:60]}`; WBS bookkeeping may only set __wbs")
-                        ok = False
-                    elif where == 'no':
-                        o.refute(f, e.node, e.node, f"{f.name} writes __wbs of `{src(recv)}`, a task outside the subtree of the moved task")
-                        ok = False
-                    elif where == '?':
-                        o.undecided(f, e.node, e.node, f"{f.name}: cannot tell whether `{src(recv)}` belongs to the moved subtree")
-                        ok = False
-                elif e.kind == 'setter':
-                    o.refute(f, e.stmt or e.node, e.node, f"{f.name} assigns a relation (`{src(e.node)}`)")
-                    ok = False
-                elif e.kind == 'call':
-                    c = e.node
-                    if e.name not in ('_attach', '_detach') or e.name != f.name:
-                        o.refute(f, c, c, f"{f.name} calls `{src(c)[:60]}`; it may only walk down the task's own subtree")
-                        ok = False
-                    elif where == 'no':
-                        o.refute(f, c, c, f"{f.name} recurses into `{src(recv)}`, a task outside the subtree of the moved task")
-                        ok = False
-                    elif where == '?':
-                        o.undecided(f, c, c, f"{f.name}: cannot tell whether `{src(recv)}` belongs to the moved subtree")
-                        ok = False
-            if ok:
+            if _bookkeeping_ok(a, o, f, f.name, set()):
                 o.site(f, f.node, 'writes only __wbs, only inside the subtree of self')
     ctx.guarded(o, run)
 
@@ -2002,6 +2115,21 @@ def subtree_follows(a: A, ctx):
 def _is_facade_list(a: A, f, e):
     """self._list / self (the facade delegates index / iteration to its list)"""
     return e is not None and (a.is_self_attr(f, e, LIST) or a.is_self(f, e))
+
+
+def _value_variants(f, e, at):
+    """the expressions a value can come from, with the cfg node that evaluates each: a local assigned once per branch
+    (`if c: i = X else: i = Y`) yields one variant per assignment"""
+    if isinstance(e, ast.Name) and at is not None:
+        ds = flow_of(f).reaching(e.id, at)
+        if len(ds) > 1 and all(d.kind == 'assign' and d.value is not None and d.node is not None for d in ds):
+            out = []
+            for d in ds:
+                v, n, _ = resolve(f, d.value, d.node)
+                out.append((v, n))
+            return out
+    v, n, _ = resolve(f, e, at)
+    return [(v, n)]
 
 
 def _parse_index(e):
@@ -2116,54 +2244,54 @@ def move_index(a: A, ctx):
                 o.refute(f, fo, fo.iter, f"{what}: the loop moves the tasks of the list itself, not the given ones")
                 return
             hn = cfg.node_of(fo)
-            idx, idn, _ = resolve(f, c.args[0], e.cn)
-            p = _parse_index(idx)
-            if p is None:
-                if facts.const_num(idx) is not None or (isinstance(idx, ast.Call) and getattr(idx.func, 'id', '') == 'len'):
-                    o.refute(f, c, c.args[0], f"{what}: inserts at the fixed position `{src(idx)}` instead of next to the anchor")
-                else:
-                    o.undecided(f, c, c.args[0], f"{what}: insert position is not `list.index(anchor) + k`")
-                return
-            L, anchor, off = p
-            if not _is_facade_list(a, f, a.xp(f, L, idn)):
-                o.refute(f, c, c.args[0], f"{what}: anchor index is looked up in `{src(L)}`, not in the list being edited")
-                return
-            anchor, _, _ = resolve(f, anchor, idn)
-            if not (isinstance(anchor, ast.Name) and anchor.id in (B, AF)):
-                if isinstance(anchor, ast.Name) and anchor.id == c.args[1].id:
-                    o.refute(f, c, c.args[0], f"{what}: position is the index of the moved task itself")
-                else:
-                    o.undecided(f, c, c.args[0], f"{what}: anchor `{src(anchor)}` is neither `{B}` nor `{AF}`")
-                return
-            want = 0 if anchor.id == B else 1
-            if off != want:
-                o.refute(f, c, c.args[0], f"{what}: inserts at index({anchor.id}) {'+' if off >= 0 else '-'} {abs(off)}; documented: "
-                                          + ("immediately BEFORE the anchor = index(before)" if want == 0 else
-                                             "immediately AFTER the anchor = index(after) + 1"))
-                return
-            atoms = path_atoms(a, f, e.cn)
-            other = AF if anchor.id == B else B
-            s_me, s_other = _none_state(atoms, anchor.id), _none_state(atoms, other)
-            if s_me == 'none' or (s_me is None and s_other == 'set'):
-                o.refute(f, c, c, f"{what}: uses `{anchor.id}` as the anchor on the path where `{anchor.id}` is None / `{other}` is given")
-                return
-            if s_me is None and s_other is None:
-                o.undecided(f, c, c, f"{what}: cannot tell from the conditions which anchor is in force here")
-                return
-            # removal first, in the same iteration, before the index is taken
-            mine = [r for r in rems if isinstance(r.node.args[0] if r.node.args else None, ast.Name)
-                    and r.node.args[0].id == c.args[1].id and enclosing_for_binding(f, r.cn, c.args[1].id) is fo]
-            if not mine:
-                o.refute(f, c, c, f"{what}: the task is inserted without being removed from its old position first: it is listed twice")
-                return
-            if not any(cfg.dominates(r.cn, idn) and cfg.dominates(hn, r.cn) for r in mine):
-                o.refute(f, c, c.args[0], f"{what}: the anchor index is taken BEFORE the task is removed from the list (or the removal "
-                                          f"is conditional): when the task stands before the anchor the position is off by one")
-                return
-            if any(path_atoms(a, f, r.cn, since=hn) for r in mine if cfg.dominates(r.cn, idn)):
-                o.undecided(f, c, c, f"{what}: the removal is conditional")
-                return
-            seen_anchor.setdefault(anchor.id, []).append(e)
+            for idx, idn in _value_variants(f, c.args[0], e.cn):
+                p = _parse_index(idx)
+                if p is None:
+                    if facts.const_num(idx) is not None or (isinstance(idx, ast.Call) and getattr(idx.func, 'id', '') == 'len'):
+                        o.refute(f, c, c.args[0], f"{what}: inserts at the fixed position `{src(idx)}` instead of next to the anchor")
+                    else:
+                        o.undecided(f, c, c.args[0], f"{what}: insert position is not `list.index(anchor) + k`")
+                    return
+                L, anchor, off = p
+                if not _is_facade_list(a, f, a.xp(f, L, idn)):
+                    o.refute(f, c, c.args[0], f"{what}: anchor index is looked up in `{src(L)}`, not in the list being edited")
+                    return
+                anchor, _, _ = resolve(f, anchor, idn)
+                if not (isinstance(anchor, ast.Name) and anchor.id in (B, AF)):
+                    if isinstance(anchor, ast.Name) and anchor.id == c.args[1].id:
+                        o.refute(f, c, c.args[0], f"{what}: position is the index of the moved task itself")
+                    else:
+                        o.undecided(f, c, c.args[0], f"{what}: anchor `{src(anchor)}` is neither `{B}` nor `{AF}`")
+                    return
+                want = 0 if anchor.id == B else 1
+                if off != want:
+                    o.refute(f, c, c.args[0], f"{what}: inserts at index({anchor.id}) {'+' if off >= 0 else '-'} {abs(off)}; documented: "
+                                              + ("immediately BEFORE the anchor = index(before)" if want == 0 else
+                                                 "immediately AFTER the anchor = index(after) + 1"))
+                    return
+                atoms = path_atoms(a, f, idn if idn is not None else e.cn)
+                other = AF if anchor.id == B else B
+                s_me, s_other = _none_state(atoms, anchor.id), _none_state(atoms, other)
+                if s_me == 'none' or (s_me is None and s_other == 'set'):
+                    o.refute(f, c, c, f"{what}: uses `{anchor.id}` as the anchor on the path where `{anchor.id}` is None / `{other}` is given")
+                    return
+                if s_me is None and s_other is None:
+                    o.undecided(f, c, c, f"{what}: cannot tell from the conditions which anchor is in force here")
+                    return
+                # removal first, in the same iteration, before the index is taken
+                mine = [r for r in rems if isinstance(r.node.args[0] if r.node.args else None, ast.Name)
+                        and r.node.args[0].id == c.args[1].id and enclosing_for_binding(f, r.cn, c.args[1].id) is fo]
+                if not mine:
+                    o.refute(f, c, c, f"{what}: the task is inserted without being removed from its old position first: it is listed twice")
+                    return
+                if not any(cfg.dominates(r.cn, idn) and cfg.dominates(hn, r.cn) for r in mine):
+                    o.refute(f, c, c.args[0], f"{what}: the anchor index is taken BEFORE the task is removed from the list (or the removal "
+                                              f"is conditional): when the task stands before the anchor the position is off by one")
+                    return
+                if any(path_atoms(a, f, r.cn, since=hn) for r in mine if cfg.dominates(r.cn, idn)):
+                    o.undecided(f, c, c, f"{what}: the removal is conditional")
+                    return
+                seen_anchor.setdefault(anchor.id, []).append(e)
         for nm in (B, AF):
             if nm not in seen_anchor:
                 a.absent(o, f, f.node, f'insert for {nm}', f"{what}: no insertion for `{nm}=`: move(..., {nm}=x) removes the task / does nothing")
@@ -2866,6 +2994,8 @@ def frame(a: A, ctx):
                                  f"{', '.join(sorted(allowed[e.w.field]))}")
                         ok = False
                 elif e.kind in ('setter', 'call'):
+                    if e.kind == 'call' and a.wbs_only(e) and f.name in ('_attach', '_detach'):
+                        continue        # structure of the bookkeeping walk: C16.subtree_follows
                     bad_t = [t.qual for t in e.ci.targets if t is not None and t.qual not in mset
                              and t.qual != 'task._TaskList.remove'
                              and any(fld in REL_FIELDS for fld, _ in a.eff.writes_star(t))]
